@@ -50,12 +50,15 @@ func VerifyPE(r io.ReadSeeker, skipDigests bool) ([]PESignature, error) {
 		return nil, sigerrors.NotSignedError{Type: "PECOFF"}
 	}
 	// Read certificate table
-	sigblob := make([]byte, hvals.certSize)
 	if _, err := r.Seek(hvals.certStart, 0); err != nil {
 		return nil, err
 	}
-	if _, err := io.ReadFull(r, sigblob); err != nil {
+	// the size comes from the file: read what is really there instead of allocating it up front
+	sigblob, err := io.ReadAll(io.LimitReader(r, hvals.certSize))
+	if err != nil {
 		return nil, err
+	} else if int64(len(sigblob)) < hvals.certSize {
+		return nil, io.ErrUnexpectedEOF
 	}
 	// Parse and verify signatures
 	if skipDigests {
